@@ -10,9 +10,10 @@ import numpy as np
 from . import common  # noqa: F401
 from ECAgent.Core import Model, ComponentNotFoundError
 from ECAgent.Environments import (DiscreteWorld, LineWorld, GridWorld, PositionComponent, ConstantGenerator,
-                                  LookupGenerator, discrete_grid_pos_to_id)
+                                  LookupGenerator, discrete_grid_pos_to_id, discreteGridPosToID)
 
 SENT = [[-9, -9, -9]]
+ALIAS = [False]      # drift runner: call the deprecated camelCase aliases instead of their replacements
 
 
 def outcome(exc):
@@ -74,19 +75,20 @@ class GridDriver:
     def op_id_of(self, c):
         W, H, D = self.shape
         x, y, z = c
-        self.events.append({"op": "id_of", "c": list(c), "id": int(discrete_grid_pos_to_id(x, y, W, z, H))})
+        self.events.append({"op": "id_of", "c": list(c), "id": int((discreteGridPosToID if ALIAS[0] else discrete_grid_pos_to_id)(x, y, W, z, H))})
 
     def op_get_cell(self, c):
         exc = None
         pos, vals = [0, 0, 0], []
         try:
             x, y, z = c
+            gc = self.world.getCell if ALIAS[0] else self.world.get_cell
             if self.dims == 1 and y == 0 and z == 0:
-                row = self.world.get_cell(x)
+                row = gc(x)
             elif self.dims == 2 and z == 0:
-                row = self.world.get_cell(x, y)
+                row = gc(x, y)
             else:
-                row = self.world.get_cell(x, y, z)
+                row = gc(x, y, z)
             pos = _ints(row["pos"])
             vals = [[str(k), int(row[k])] for k in row.index if k != "pos"]
         except Exception as e:  # noqa: BLE001
@@ -177,7 +179,7 @@ class GridDriver:
             raise AssertionError(kind)
         exc = None
         try:
-            w.add_cell_component(name, gen)
+            (w.addCellComponent if ALIAS[0] else w.add_cell_component)(name, gen)
         except Exception as e:  # noqa: BLE001
             exc = e
         self.events.append({"op": "add_cell_component", "name": name, "kind": "array" if kind == "roarray" else kind, "k": k, "vals": vals, "dims": self.dims,
